@@ -64,6 +64,24 @@ def t3(rep, tier, seed):
                 if one[0] != 0 or two[0] != 0 or one[1] != two[1]:
                     rep.violation("spec", f"`A then B` differs from `A | B` through intermediate format {mid}",
                                   {"A": A, "B": B, "exit": [one[0], m[0], two[0]], "then_head": one[1][:300].decode(errors="replace"), "pipe_head": two[1][:300].decode(errors="replace")}, True)
+        # ... also on data with empty cells and all-empty rows, for verbs whose presence anywhere in the chain
+        # might influence an earlier stage (the reader included)
+        sparse = b"a,b,c\n1,,3\n,,\n4,5,\n,,\n,,9\n7,8,9\n"
+        sf = os.path.join(base, "sparse.csv")
+        open(sf, "wb").write(sparse)
+        # (B never reads NR: after a stage that drops records, NR in a chain is still the reader's count - by design)
+        stages = [["fill-empty"], ["fill-empty", "-v", "X"], ["fill-down", "--all"], ["fill-down", "-a", "-f", "a,b"], ["skip-trivial-records"], ["cat", "-n"],
+                  ["unsparsify"], ["sec2gmt", "a"], ["nothing"], ["tac"], ["head", "-n", "4"], ["count"], ["put", "$n = NF"], ["put", "-q", "@c += 1; end{emit @c}"]]
+        for A in stages + [["put", "$nr = NR"]]:
+            for B in stages:
+                one = t3util.run(mlr, ["--icsv", "--ojsonl"] + A + ["then"] + B + [sf])
+                for mid in ["json", "jsonl"]:
+                    m = t3util.run(mlr, ["--icsv", "--o" + mid] + A + [sf])
+                    two = t3util.run(mlr, ["--i" + mid, "--ojsonl"] + B, stdin=m[1])
+                    counts["then_vs_pipe"] += 1
+                    if one[0] != 0 or two[0] != 0 or one[1] != two[1]:
+                        rep.violation("spec", f"`A then B` differs from `A | B` through intermediate format {mid} (input with empty cells and all-empty rows)",
+                                      {"A": A, "B": B, "exit": [one[0], m[0], two[0]], "then_head": one[1][:400].decode(errors="replace"), "pipe_head": two[1][:400].decode(errors="replace")}, True)
         # files with different headers, an empty file, a header-only file: concatenation of each alone
         texts = [b"a,b\n1,2\n3,4\n", b"", b"c\n5\n", b"a,b\n", b"a,b\n6,7\n"]
         fns = []
